@@ -475,3 +475,11 @@ package compile
 //@   requires c != nil
 //@   modifies *
 //@   exsures is(result, runtime.Error)
+
+// deviate delete (C14: "deviate add, replace and delete give the same schema as editing the target's source
+// accordingly"): a property can be deleted iff the target has THAT statement - the one of the same keyword and the
+// same argument, wherever it stands among several of its kind.
+//@ func (*deviateDelete).propertyAction
+//@   requires target != nil && property != nil
+//@   modifies *
+//@   ensures implies(node_type(property) != parse.NodeUnknown, iff(result == nil, node_lookup_child(target, node_type(property), node_name(property)) != nil))
